@@ -55,11 +55,11 @@ class Unit:
         self.ovfile = os.path.join(self.modfile, "overlay_%s.json" % self.pkg.replace("/", "_"))
         json.dump({"Replace": ov}, open(self.ovfile, "w"))
 
-    def gosx(self, harnesses, solver, workers, extra, outjson, timeout):
+    def gosx(self, harnesses, solver, workers, extra, outjson, timeout, env=None):
         cmd = [GOSX, "-dir", self.mod, "-pkg", self.pkg, "-harness-dir", self.hdir, "-harness", ",".join(harnesses),
                "-solver", solver, "-workers", str(workers), "-modfile", os.path.join(self.modfile, "go.mod"), "-json", outjson] + extra
         try:
-            rc, out = sh(cmd, timeout=timeout)
+            rc, out = sh(cmd, timeout=timeout, env=dict(ENV, **env) if env else None)
         except subprocess.TimeoutExpired:
             return 124, "timeout"
         return rc, out
@@ -178,7 +178,9 @@ def run(pid, tier, spec, scratch, seed, t0):
             conf_cases += n
             if not ok:
                 inconclusive.append("conformance %s: %s" % (ch, why))
-        hs = grp.get(tier) or grp.get("quick")
+        hs = grp.get(tier)
+        if hs is None and tier == "thorough" and not grp.get("quick_only"):
+            hs = grp.get("quick")
         if not hs:
             continue
         solver = grp.get("solver", "z3-new")
@@ -190,7 +192,7 @@ def run(pid, tier, spec, scratch, seed, t0):
         if grp.get("hang_is_violation"):
             extra += ["-hang-violation"]
         outj = os.path.join(scratch, "rep_%d.json" % len(reports))
-        rc, out = u.gosx(hs, solver, workers, extra, outj, spec.get("timeout_" + tier, 3600))
+        rc, out = u.gosx(hs, solver, workers, extra, outj, spec.get("timeout_" + tier, 3600), env=grp.get("env"))
         if not os.path.exists(outj):
             inconclusive.append("engine produced no report for %s: %s" % (hs, out[-1500:]))
             continue
